@@ -150,7 +150,7 @@ static void case_str(const acase *a, char *o, int cap)
    int j, p = snprintf(o, cap, "alloc %s start=%d end=%d C=%d LM=%d total=%d trim=%d intensity=%d dual=%d prev=%d sigbw=%d offsets=", a->encode ? "enc" : "dec",
                        a->start, a->end, a->C, a->LM, a->total, a->trim, a->intensity, a->dual, a->prev, a->sigbw);
    for (j = 0; j < NB && p < cap - 12; j++) p += snprintf(o + p, cap - p, "%s%d", j ? "," : "", a->offsets[j]);
-   if (!a->encode) { p += snprintf(o + p, cap - p, " oracle="); for (j = 0; j < a->norc && p < cap - 12; j++) p += snprintf(o + p, cap - p, "%s%u", j ? "," : "", a->orc[j] % 1024); }
+   if (!a->encode) { p += snprintf(o + p, cap - p, " oracle="); for (j = 0; j < a->norc && p < cap - 12; j++) p += snprintf(o + p, cap - p, "%s%u", j ? "," : "", a->orc[j]); }
 }
 static void witness(const acase *a, const char *expected, const char *observed, const char *why)
 {
@@ -189,9 +189,11 @@ static void check_case(const acase *a)
       }
    }
    sum += r.balance;
-   if (sum + sig > (a->total > 0 ? a->total : 0)) {
+   if (sum + sig != (a->total > 0 ? a->total : 0)) {
+      /* OpusProps.C17.alloc_total_ranges_budget proves equality: every 1/8 bit is either allocated or spent on signalling */
       snprintf(ob, sizeof(ob), "sum(pulses + C*ebits<<3) + balance = %ld, signalling = %d, total = %d", sum, sig, a->total);
-      witness(a, "allocation + signalling <= total", ob, "the allocation promises more bits than the frame has"); return;
+      witness(a, "allocation + signalling = max(total,0)", ob, sum + sig > (a->total > 0 ? a->total : 0) ?
+              "the allocation promises more bits than the frame has" : "bits of the frame are neither allocated nor spent on signalling"); return;
    }
    if (!(r.cb > a->start && r.cb <= a->end) || r.intensity < 0 || r.intensity > r.cb || (r.dual != 0 && r.dual != 1)) {
       snprintf(ob, sizeof(ob), "codedBands=%d intensity=%d dual_stereo=%d", r.cb, r.intensity, r.dual);
